@@ -315,7 +315,10 @@ mutual
 "ResolveFieldValue raised" (`RVal.raise`). -/
 def completeValue (cx : Ctx) (t : TypeRef) (fields : List FieldNode) (pos : List PSeg) :
     RVal → R Json
-  | .raise tag => R.fail pos (.raised tag)
+  | .raise tag none => R.fail pos (.raised tag)
+  | .raise tag (some ownPath) =>
+    -- an error that already carries a path is reported as it is
+    { out := none, errs := [{ path := some ownPath, kind := .raised tag }], log := [] }
   | .null => completeNull t pos
   | .leaf l => completeNamed cx t fields pos (some l) .missing nullChild
   | .list items =>
